@@ -9,6 +9,7 @@ values per key, empty values), all `Ctx` (Host, peer address, TLS) and all model
 -/
 import Olla.Model.Headers
 import Olla.Spec.C15
+import Olla.Spec.State
 
 namespace Olla.Props.C15
 open Olla.Model.Headers Olla.Gen.Headers
@@ -728,5 +729,14 @@ example : isFiltered "pRoXy-AuThOrIzAtIoN".toList = true ∧ isFiltered "X-Custo
 example : Olla.Spec.C15.singleLine demo = true ∧ Olla.Spec.C15.singleLine witnessVia = false ∧
     additionsKeepExisting witnessVia (copyHeaders .fixed witnessCtx witnessVia) = true ∧
     copyHeaders .fixed witnessCtx demo = copyHeaders .pinned witnessCtx demo := by decide
+
+/-! ### tie: no process-wide state on the modelled path
+
+The theorems above are about single calls (or the history of one object). They cover every
+request of a running process only if a call reaches no state that outlives it besides that
+object. `Olla.Gen.State` is re-read from the source on every run: the package-level variables
+reachable from each function inside its package that the package changes after initialisation. -/
+theorem C15_tie_no_process_wide_state :
+    Olla.Spec.State.reachesOnly "core.CopyHeaders" [] = true := by decide
 
 end Olla.Props.C15
